@@ -6,3 +6,21 @@ pub proof fn vx_canary_rt_hypotheses(f: &NarseseFormat, term: Term)
 {
     assert(false); // must fail (C02 hypotheses)
 }
+/// the same for the sentence / task level hypotheses (a task with budget, stamp and truth)
+pub proof fn vx_canary_rt_value_hypotheses(f: &NarseseFormat, n: Narsese)
+    requires lex_format_wf(f), f.space.remove_spaces_before_parse, format_no_space2(f), value_no_space(f, rtv_of(n)),
+        rt_value(f, rtv_of(n)), rt_kind_ok(rtv_of(n)),
+        n is Task, rtv_of(n).budget.len() == 2, rtv_of(n).truth.len() == 2, rtv_of(n).stamp.len() > 0,
+{
+    reveal(rt_value);
+    assert(false); // must fail (C02 value hypotheses)
+}
+/// ... and a sentence without stamp and truth
+pub proof fn vx_canary_rt_value_hypotheses2(f: &NarseseFormat, n: Narsese)
+    requires lex_format_wf(f), f.space.remove_spaces_before_parse, format_no_space2(f), value_no_space(f, rtv_of(n)),
+        rt_value(f, rtv_of(n)), rt_kind_ok(rtv_of(n)),
+        n is Sentence, rtv_of(n).truth.len() == 0, rtv_of(n).stamp.len() == 0,
+{
+    reveal(rt_value);
+    assert(false); // must fail (C02 value hypotheses)
+}
